@@ -9,6 +9,7 @@ import (
 	"time"
 
 	ipfslog "berty.tech/go-ipfs-log"
+	"berty.tech/go-ipfs-log/entry"
 	orbitdb "berty.tech/go-orbit-db"
 	"berty.tech/go-orbit-db/iface"
 	"berty.tech/go-orbit-db/stores"
@@ -19,7 +20,7 @@ import (
 
 func init() {
 	Register(&Scenario{Prop: "C09", Name: "multi-db-isolation", Run: scenC09, SoftParks: true, Weight: 3,
-		Rule: "instance P with 2-4 databases (types and write lists mixed) on its default shared event bus, peer Q (and sometimes R) opening a random subset; one database is kept idle after setup; 4-14 (thorough 4-36) writes on the other databases from any peer holding them (one operation in four writes to all of a peer's active databases at the same time), replication under faults, Load(-1) on a non-idle database, SaveSnapshot of a non-idle database while its replicator has unfinished work followed by LoadFromSnapshot into the same store; oracles: every payload published on a database topic or a direct channel names one database and carries only heads of that database's log; the idle database's log, replication status and cached head keys never change and no store event carries its address; every EventWrite/EventReplicated carries only entries of its own database; after a final reconnect of all peers every holder of a database has every acknowledged write of that database; non-trivial = >=2 active databases on P, >=1 replication into P and >=1 write on P while the idle database was watched"})
+		Rule: "instance P with 2-4 databases (types and write lists mixed) on its default shared event bus, peer Q (and sometimes R) opening a random subset; one database is kept idle after setup; 4-14 (thorough 4-36) writes on the other databases from any peer holding them (one operation in four writes to all of a peer's active databases at the same time, one or two writers per database), replication under faults, Load(-1) on a non-idle database, SaveSnapshot of a non-idle database while its replicator has unfinished work followed by LoadFromSnapshot into the same store, and (one operation in six) a head exchange for one database sent to P on the direct channel by a hostile peer that P refuses with an error (real head, address of another block), followed by a write on another shared database made while the writer is cut off from P (heard after the heal through the head exchange alone); oracles: every payload published on a database topic or a direct channel names one database and carries only heads of that database's log; the idle database's log, replication status and cached head keys never change and no store event carries its address; every EventWrite/EventReplicated carries only entries of its own database; after a final reconnect of all peers every holder of a database has every acknowledged write of that database; non-trivial = >=2 active databases on P, >=1 replication into P and >=1 write on P while the idle database was watched"})
 }
 
 type c09db struct {
@@ -209,6 +210,7 @@ func scenC09(k *K) {
 	writesOnP, replIntoP := 0, 0
 	active := map[string]bool{}
 	acked := map[string][]string{}
+	var hostile *Adversary
 	for i := 0; i < nops; i++ {
 		db := dbs[k.C.Intn(ndb)]
 		if db.idle {
@@ -227,20 +229,25 @@ func scenC09(k *K) {
 			// share the instance's bus, their announcements are prepared concurrently)
 			var ops []*Op
 			var odbs []*c09db
+			// one writer per database, or (half the time) two: more announcements prepared
+			// at the same moment through what the instance's stores share
+			per := k.C.Range(1, 2)
 			for _, d2 := range dbs {
 				if d2.idle || d2.stores[pi] == nil {
 					continue
 				}
 				d2 := d2
 				st2 := d2.stores[pi]
-				wseq++
-				val := fmt.Sprintf("w%d.%d", pi, wseq)
-				ops = append(ops, k.Go(pi, fmt.Sprintf("write %s %s", short(d2.addr), val), func() (interface{}, error) {
-					ctx, cancel := OpCtx(60 * time.Second)
-					defer cancel()
-					return c09Write(ctx, st2, val)
-				}))
-				odbs = append(odbs, d2)
+				for w := 0; w < per; w++ {
+					wseq++
+					val := fmt.Sprintf("w%d.%d", pi, wseq)
+					ops = append(ops, k.Go(pi, fmt.Sprintf("write %s %s", short(d2.addr), val), func() (interface{}, error) {
+						ctx, cancel := OpCtx(60 * time.Second)
+						defer cancel()
+						return c09Write(ctx, st2, val)
+					}))
+					odbs = append(odbs, d2)
+				}
 			}
 			k.Wait()
 			for j := 0; j < 40; j++ {
@@ -348,6 +355,74 @@ func scenC09(k *K) {
 				k.Steps(k.C.Intn(8))
 				continue
 			}
+		}
+		if st0 := db.stores[0]; st0 != nil && len(LogValues(st0)) > 0 && k.C.Chance(1, 6) {
+			// somebody on the pairwise channel with P sends a head exchange for this database
+			// that P refuses with an error (a real head of its log under the address of
+			// another block: write access and signature hold, the hash does not match). What
+			// comes on the direct channel afterwards, for this or any other database of P,
+			// is handled as before: a peer that wrote while it was cut off is heard after the
+			// heal through the head exchange alone
+			if hostile == nil {
+				hostile = k.NewAdversary()
+			}
+			hostile.Engage(peers[0], st0)
+			if real, ok := st0.OpLog().Heads().Slice()[0].(*entry.Entry); ok {
+				twin := *real
+				twin.Hash = hostile.lastCID()
+				hostile.Deliver("direct", peers[0], st0, &twin)
+				k.W.Stat("refused-exchange-for-one-database-on-direct-channel")
+				k.Steps(k.C.Range(2, 8))
+				// another database P shares with some peer q (this one if there is no other)
+				var cands []*c09db
+				for _, d2 := range dbs {
+					if !d2.idle && d2 != db && d2.stores[0] != nil {
+						for q := 1; q < np; q++ {
+							if d2.stores[q] != nil {
+								cands = append(cands, d2)
+								break
+							}
+						}
+					}
+				}
+				d2 := db
+				if len(cands) > 0 {
+					d2 = cands[k.C.Intn(len(cands))]
+				}
+				for q := 1; q < np; q++ {
+					sq := d2.stores[q]
+					if sq == nil {
+						continue
+					}
+					holdBefore := k.W.HoldOnCut
+					k.W.HoldOnCut = false
+					k.Cut(0, q)
+					wseq++
+					val := fmt.Sprintf("w%d.%d", q, wseq)
+					wop := k.Do(q, fmt.Sprintf("write %s %s", short(d2.addr), val), 20, func() (interface{}, error) {
+						ctx, cancel := OpCtx(60 * time.Second)
+						defer cancel()
+						return c09Write(ctx, sq, val)
+					})
+					if wop.Done && wop.Err == nil {
+						active[d2.addr] = true
+						if o, ok := wop.Val.(operation.Operation); ok && o != nil {
+							acked[d2.addr] = append(acked[d2.addr], o.GetEntry().GetHash().String())
+						}
+					}
+					saved := k.F
+					k.F = FaultCfg{Refresh: 5, Tick: 1}
+					k.Steps(8)
+					k.Tick(2500 * time.Millisecond)
+					k.Steps(8)
+					k.Heal(0, q)
+					k.W.HoldOnCut = holdBefore
+					k.F = saved
+					break
+				}
+			}
+			k.Steps(k.C.Intn(8))
+			continue
 		}
 		if k.C.Chance(1, 8) && pi == 0 {
 			k.Do(0, "load", 200, func() (interface{}, error) {
